@@ -271,6 +271,7 @@ func c08r3(rc *core.RC) {
 			}
 		}
 		var idxRHS, totalDef ast.Expr
+		totalName := "totalLength"
 		ast.Inspect(fd.Body, func(n ast.Node) bool {
 			as, ok := n.(*ast.AssignStmt)
 			if !ok || len(as.Lhs) != 1 || len(as.Rhs) != 1 {
@@ -279,8 +280,14 @@ func c08r3(rc *core.RC) {
 			if f := core.FieldOf(info, as.Lhs[0]); f != nil && f.Name() == "Idx" {
 				idxRHS = as.Rhs[0]
 			}
-			if id, ok := as.Lhs[0].(*ast.Ident); ok && id.Name == "totalLength" {
-				totalDef = as.Rhs[0]
+			// the local that holds the program's length, by role: assigned from an expression that calls TotalLength()
+			if id, ok := as.Lhs[0].(*ast.Ident); ok {
+				ast.Inspect(as.Rhs[0], func(k ast.Node) bool {
+					if c, isCall := k.(*ast.CallExpr); isCall && strings.HasSuffix(core.CalleeName(info, c), ".TotalLength") {
+						totalDef, totalName = as.Rhs[0], id.Name
+					}
+					return true
+				})
 			}
 			return true
 		})
@@ -292,7 +299,7 @@ func c08r3(rc *core.RC) {
 			// base = word*totalLength + word*c0
 			c0, okc := int64(0), base.OK
 			for a, c := range base.Terms {
-				if c != 0 && !((a == "totalLength" || strings.HasSuffix(a, ".TotalLength()")) && c == word) {
+				if c != 0 && !((a == totalName || strings.HasSuffix(a, ".TotalLength()")) && c == word) {
 					okc = false
 				}
 			}
@@ -905,7 +912,8 @@ func c08r10(rc *core.RC) {
 					ast.Inspect(ifs.Cond, func(k ast.Node) bool {
 						if be, ok := k.(*ast.BinaryExpr); ok && be.Op == token.EQL {
 							if v, ok := core.ConstInt(info, be.Y); ok && v == 0 {
-								if id, ok := core.Unparen(be.X).(*ast.Ident); ok && id.Name == "p" {
+								// the address under work, whatever it is called: a local of type uintptr compared with 0
+								if id, ok := core.Unparen(be.X).(*ast.Ident); ok && info.TypeOf(id) != nil && info.TypeOf(id).String() == "uintptr" {
 									hasNil = true
 								}
 							}
@@ -1799,5 +1807,202 @@ func c08r20(rc *core.RC) {
 	}
 	if n < 9 {
 		rc.Unknown("encoder/frame-stack-size-tests", token.NoPos, "found %d measurements of RuntimeContext.Ptrs (confirmed: 9, Init and two growth sites per interpreter)", n)
+	}
+}
+
+// ---- C08.R21 a value that is the interface word itself is boxed before an addressing program runs ----
+
+// The program of an array addresses memory (element i is at p + i*size). A one-element array of a pointer-shaped
+// type, and a struct whose only word is such an array, is not in memory when it arrives in an interface: it is the
+// interface's data word. Started with that word, the array program reads the element's pointee as the element
+// (json.Marshal([1]*int{&x}) dereferenced the integer). Every place that starts a program with an interface word
+// therefore consults OpcodeSet.BoxedValue and hands over the address of a copy of the word:
+//   - the three root entry functions of package json take the start pointer from rootPointer,
+//   - rootPointer returns the bare word only under !BoxedValue,
+//   - the OpInterface handler of each interpreter tests BoxedValue of the dynamic type's code set,
+//   - isBoxedValue says yes for an ArrayCode of array kind.
+func c08r21(rc *core.RC) {
+	p := rc.P
+	readsBoxed := func(info *types.Info, n ast.Node) bool {
+		found := false
+		ast.Inspect(n, func(m ast.Node) bool {
+			if sel, ok := m.(*ast.SelectorExpr); ok && sel.Sel.Name == "BoxedValue" {
+				if f := core.FieldOf(info, sel); f != nil {
+					found = true
+				}
+			}
+			return true
+		})
+		return found
+	}
+	// (a) root entries: the first argument of RuntimeContext.Init comes from rootPointer
+	n := 0
+	for _, fd := range p.Funcs("json") {
+		if fd.Body == nil {
+			continue
+		}
+		info := p.Info(fd)
+		fn := p.FuncName(fd)
+		ast.Inspect(fd.Body, func(m ast.Node) bool {
+			call, ok := m.(*ast.CallExpr)
+			if !ok || core.CalleeName(info, call) != "encoder.RuntimeContext.Init" || len(call.Args) != 2 {
+				return true
+			}
+			n++
+			rc.Touch(fn)
+			key := fn + "/root-pointer boxed-when-the-program-addresses-memory"
+			arg := core.Unparen(call.Args[0])
+			ok2 := false
+			why := core.Src(p.Fset, arg)
+			if id, isID := arg.(*ast.Ident); isID {
+				obj := core.ObjOf(info, id)
+				ast.Inspect(fd.Body, func(k ast.Node) bool {
+					as, isAs := k.(*ast.AssignStmt)
+					if !isAs || len(as.Lhs) != 1 || len(as.Rhs) != 1 || core.ObjOf(info, as.Lhs[0]) != obj {
+						return true
+					}
+					why = core.Src(p.Fset, as.Rhs[0])
+					if c, isCall := core.Unparen(as.Rhs[0]).(*ast.CallExpr); isCall && core.CalleeName(info, c) == "json.rootPointer" {
+						ok2 = true
+					}
+					return true
+				})
+			}
+			rc.Check(ok2, key, call.Pos(), "the program of the root value is started with the result of rootPointer, which boxes a value that is the interface word itself (here: %s); started with the bare word, the program of a one-element array of pointers reads the pointee as the element", why)
+			return true
+		})
+	}
+	if n < 3 {
+		rc.Unknown("json/root-entries", token.NoPos, "found %d calls of RuntimeContext.Init in package json (confirmed: encode, encodeNoEscape, encodeIndent)", n)
+	}
+	// (b) rootPointer
+	if fd := p.Func("json", "rootPointer"); fd == nil || fd.Body == nil {
+		rc.Unknown("json.rootPointer", token.NoPos, "function not found")
+	} else {
+		info := p.Info(fd)
+		rc.Touch("json.rootPointer")
+		key := "json.rootPointer/bare-word-only-when-not-boxed"
+		good, bare := true, 0
+		ast.Inspect(fd.Body, func(m ast.Node) bool {
+			ret, ok := m.(*ast.ReturnStmt)
+			if !ok || len(ret.Results) != 1 {
+				return true
+			}
+			// a return of uintptr(<parameter>) is the bare word
+			c, isConv := core.Unparen(ret.Results[0]).(*ast.CallExpr)
+			if !isConv || len(c.Args) != 1 {
+				return true
+			}
+			if _, isParam := core.ObjOf(info, c.Args[0]).(*types.Var); !isParam {
+				return true
+			}
+			isPar := false
+			for _, f := range fd.Type.Params.List {
+				for _, nm := range f.Names {
+					if info.Defs[nm] == core.ObjOf(info, c.Args[0]) {
+						isPar = true
+					}
+				}
+			}
+			if !isPar {
+				return true
+			}
+			bare++
+			under := false
+			for _, cn := range condChainNodes(fd, ret) {
+				if !cn.pos && readsBoxed(info, cn.cond) {
+					under = true
+				}
+			}
+			if !under {
+				good = false
+			}
+			return true
+		})
+		rc.Check(good && bare >= 1, key, fd.Pos(), "rootPointer returns the interface word itself only on the branch where BoxedValue is false (%d such returns)", bare)
+	}
+	// (c) the interface handlers
+	for _, vm := range []string{"vm", "vm_indent", "vm_color", "vm_color_indent"} {
+		fd := p.Func(vm, "Run")
+		if fd == nil || fd.Body == nil {
+			rc.Unknown(vm+".Run", token.NoPos, "interpreter not found")
+			continue
+		}
+		info := p.Info(fd)
+		key := vm + ".Run/case OpInterface/dynamic-value boxed-when-the-program-addresses-memory"
+		var clause *ast.CaseClause
+		ast.Inspect(fd.Body, func(m ast.Node) bool {
+			cc, ok := m.(*ast.CaseClause)
+			if !ok {
+				return true
+			}
+			for _, l := range cc.List {
+				if sel, ok := core.Unparen(l).(*ast.SelectorExpr); ok && sel.Sel.Name == "OpInterface" {
+					clause = cc
+				}
+			}
+			return true
+		})
+		if clause == nil {
+			rc.Unknown(key, fd.Pos(), "OpInterface handler not found")
+			continue
+		}
+		rc.Touch(vm + ".Run")
+		// an if statement that tests BoxedValue and assigns the pointer that is stored afterwards
+		tested := false
+		for _, st := range clause.Body {
+			ifs, ok := st.(*ast.IfStmt)
+			if !ok {
+				continue
+			}
+			// the flag itself, not a conjunction that may weaken it
+			if sel, isSel := core.Unparen(ifs.Cond).(*ast.SelectorExpr); !isSel || sel.Sel.Name != "BoxedValue" || core.FieldOf(info, sel) == nil {
+				continue
+			}
+			ast.Inspect(ifs.Body, func(k ast.Node) bool {
+				if as, isAs := k.(*ast.AssignStmt); isAs && as.Tok == token.ASSIGN && len(as.Lhs) == 1 {
+					if t := info.TypeOf(as.Lhs[0]); t != nil && t.String() == "unsafe.Pointer" {
+						tested = true
+					}
+				}
+				return true
+			})
+		}
+		rc.Check(tested, key, clause.Pos(), "the handler tests BoxedValue of the code set compiled for the dynamic type and replaces the data word by the address of a copy of it before the program is entered")
+	}
+	// (d) isBoxedValue
+	if fd := p.Func("encoder", "isBoxedValue"); fd == nil || fd.Body == nil {
+		rc.Unknown("encoder.isBoxedValue", token.NoPos, "function not found")
+	} else {
+		info := p.Info(fd)
+		rc.Touch("encoder.isBoxedValue")
+		key := "encoder.isBoxedValue/array-programs-are-boxed"
+		good := false
+		ast.Inspect(fd.Body, func(m ast.Node) bool {
+			cc, ok := m.(*ast.CaseClause)
+			if !ok {
+				return true
+			}
+			isArr := false
+			for _, l := range cc.List {
+				if strings.Contains(core.Src(p.Fset, l), "ArrayCode") {
+					isArr = true
+				}
+			}
+			if !isArr {
+				return true
+			}
+			for _, st := range cc.Body {
+				if ret, ok := st.(*ast.ReturnStmt); ok && len(ret.Results) == 1 {
+					if v := core.ConstValue(info, ret.Results[0]); v != nil {
+						good = v.String() == "true"
+					} else {
+						good = strings.Contains(core.Src(p.Fset, ret.Results[0]), "reflect.Array")
+					}
+				}
+			}
+			return true
+		})
+		rc.Check(good, key, fd.Pos(), "isBoxedValue answers yes for the program of a pointer-shaped array (an ArrayCode whose type is of array kind)")
 	}
 }
